@@ -464,7 +464,8 @@ def activity(isotope, mass, env, exposure, rest_times):
             W = lam/(lam-flux*initialXS*3600*1e-24+env.fluence*effectiveXS*3600*1e-24)
             # Column X: V#*[e(-S#)-e(U#)]
             if abs(U) < 1e-10 and abs(V) < 1e-10:
-                precision_correction = W * (V-U+(V+U)/2)
+                # exp(-U)-exp(-V) = (V-U) - (V^2-U^2)/2 + ...
+                precision_correction = W * (V-U)*(1-(V+U)/2)
             else:
                 precision_correction = W * (exp(-U)-exp(-V))
 
